@@ -150,7 +150,11 @@ let eval toks =
           let exact = opt c "exact" "1" = "1" in
           let cgw = Array.init c.nf (fun e -> lazy (cg_wto c.prog (nat_of_int e))) in
           let cgwto e = let i = int_of_nat e in if i < c.nf then Lazy.force cgw.(i) else [] in
-          let g = rec_run c.prog voff maxc exact delay desc efuel (nat_of_int 60) wtos cgwto (cg_wset c.prog) rs
+          let wset = cg_wset c.prog in
+          (* rec_run_checked = rec_run when the side conditions of theorem C09_rec_model_sound hold *)
+          if not (rec_cfg_okb c.prog wtos cgwto wset rs entries) then "MODEL-ERROR side-conditions"
+          else
+          let g = rec_run_checked c.prog voff maxc exact delay desc efuel (nat_of_int 60) wtos cgwto wset rs
               (nat_of_int (c.nf + 2)) entries c.init in
           if g.r_g.g_err then "MODEL-ERROR out-of-fuel"
           else dump c g.r_g.g_pre g.r_g.g_post (g_summaries c.prog g.r_g)
